@@ -75,7 +75,8 @@ class TunnelEndpoint(Endpoint):
         """
         Ensure packets are only delivered if they follow they are properly encrypted.
         """
-        for listener in self.endpoint._listeners:  # noqa: SLF001
+        prefix = packet[1][:self.endpoint.prefixlen]
+        for listener in self.endpoint._prefix_map.get(prefix, self.endpoint._listeners):  # noqa: SLF001
             # Anonymized communities should ignore traffic received from the socket
             # Non-anonymized communities should ignore traffic received from the TunnelCommunity
             if getattr(listener, "anonymize", False) != from_tunnel:
@@ -93,6 +94,12 @@ class TunnelEndpoint(Endpoint):
         Forward directly to the underlying endpoint.
         """
         self.endpoint.add_prefix_listener(listener, prefix)
+
+    def remove_listener(self, listener: EndpointListener) -> None:
+        """
+        Forward directly to the underlying endpoint.
+        """
+        self.endpoint.remove_listener(listener)
 
     def assert_open(self) -> None:
         """
